@@ -1445,6 +1445,32 @@ def cmp_sensor(c, stats):
         if bad:
             c.probs.append(("corr", "sensor", "model and implementation differ at call %d (%s) of %s" % (k, op, "".join(ops))))
             return
+    # the counting specification SensorSpec.run (theorem sensor_refines_spec) against the check's own statement of the promise
+    rd.expect("pos")
+    pos = rd.nat()
+    rd.expect("spec")
+    served, draws = rd.nat(), rd.nat()
+    L = len(c.st["xs"])
+    cur, dr, meas, want = 0, 0, None, []
+    for op in ops:
+        if op == "f":
+            if cur < L:
+                meas = (cur, dr); cur += 1; dr += 1; want.append("T")
+            else:
+                want.append("F")
+        elif op == "m":
+            want.append("m-" if meas is None else "m%d:%d" % meas)
+        elif op == "r":
+            cur = 0; want.append("T")
+        else:
+            if cur < L:
+                cur += 1; want.append("T")
+            else:
+                want.append("F")
+    got = [rd.tok() for _ in ops]
+    if got != want or served != cur or draws != dr or pos != dr * mm:
+        c.probs.append(("corr", "spec-vs-oracle", "the Lean specification SensorSpec.run and the check's oracle differ on %s: %r vs %r" % ("".join(ops), got[:8], want[:8])))
+    stats["sensor_spec_runs_compared"] = stats.get("sensor_spec_runs_compared", 0) + 1
 
 
 # ------------------------------------------------------------------ grid initialiser
